@@ -416,7 +416,7 @@ func Run(o *drv.Out) {
 			signCom := com
 			// deviations applied BEFORE signing (honest signers sign the deviated content: still "correctly bound")
 			// and AFTER signing (re-targeting). Choose by variant.
-			dev := r.Intn(30)
+			dev := r.Intn(31)
 			dupHeader := false
 			if v == 0 {
 				dev = -1 // the valid pair itself
@@ -451,6 +451,9 @@ func Run(o *drv.Out) {
 				}
 				return nil, false
 			}
+			if v == 6 {
+				dev = 30 // always: a minority signs, padding bits make the raw popcount equal the committee size
+			}
 			if v == 5 {
 				dev = 29 // always: aggregated under another key layout of the same members (bits name other members)
 			}
@@ -462,7 +465,7 @@ func Run(o *drv.Out) {
 			}
 			pre := func() {
 				switch dev {
-				case 0: // one unit short of the threshold
+				case 0, 30: // one unit short of the threshold (30: … and padding bits raised afterwards so the popcount equals the committee size)
 					for len(idxs) > 0 {
 						var s uint64
 						for _, i := range idxs {
@@ -770,12 +773,31 @@ func applyPost(dev int, qc *lib.QuorumCertificate, keys []crypto.PrivateKeyI, nm
 	case 16:
 		qc.ProposerKey = keys[0].PublicKey().Bytes()
 		*notes = append(*notes, "retarget-proposer")
-	case 17: // padding bits set
-		if nm%8 != 0 {
-			for b := nm; b < len(qc.Signature.Bitmap)*8; b++ {
+	case 17: // padding bits set: all of them, one of them, or as many as there are non-signers (popcount = committee size)
+		if nm%8 != 0 && len(qc.Signature.Bitmap)*8 > nm {
+			switch r.Intn(3) {
+			case 0:
+				for b := nm; b < len(qc.Signature.Bitmap)*8; b++ {
+					qc.Signature.Bitmap[b/8] |= 1 << uint(b%8)
+				}
+				*notes = append(*notes, "padding")
+			case 1:
+				b := nm + r.Intn(len(qc.Signature.Bitmap)*8-nm)
 				qc.Signature.Bitmap[b/8] |= 1 << uint(b%8)
+				*notes = append(*notes, "padding-one-bit")
+			default:
+				set := 0
+				for b := 0; b < nm; b++ {
+					if qc.Signature.Bitmap[b/8]&(1<<uint(b%8)) != 0 {
+						set++
+					}
+				}
+				for b := nm; b < len(qc.Signature.Bitmap)*8 && set < nm; b++ {
+					qc.Signature.Bitmap[b/8] |= 1 << uint(b%8)
+					set++
+				}
+				*notes = append(*notes, "padding-popcount")
 			}
-			*notes = append(*notes, "padding")
 		}
 	case 18: // claim one more signer than signed
 		for i := 0; i < nm; i++ {
@@ -805,6 +827,20 @@ func applyPost(dev int, qc *lib.QuorumCertificate, keys []crypto.PrivateKeyI, nm
 		*notes = append(*notes, "retarget-phase")
 	case 25:
 		qc.Header.Phase = lib.Phase_PRECOMMIT_VOTE
+	case 30:
+		if len(qc.Signature.Bitmap)*8 > nm {
+			set := 0
+			for b := 0; b < nm; b++ {
+				if qc.Signature.Bitmap[b/8]&(1<<uint(b%8)) != 0 {
+					set++
+				}
+			}
+			for b := nm; b < len(qc.Signature.Bitmap)*8 && set < nm; b++ {
+				qc.Signature.Bitmap[b/8] |= 1 << uint(b%8)
+				set++
+			}
+			*notes = append(*notes, "padding-popcount")
+		}
 	case 28:
 		if qc.Results != nil {
 			var what string
